@@ -69,7 +69,9 @@ def generate(unit, repo=None):
     if unit.generated:
         gtext, glemmas = unit.generated(repo, log)
         parts.append("// ---- generated from /repo (structure) ----\n" + gtext + "\n")
-        lemmas += glemmas
+        byname = {l.name: l for l in lemmas}
+        byname.update({l.name: l for l in glemmas})
+        lemmas = list(byname.values())
     infos, ranges = {}, {}
     cur_container = None
     text_so_far = "".join(parts)
